@@ -232,6 +232,21 @@ class HidWorld(World):
         if getattr(self, "perm_subscriber", True):
             self.driver.bus_traffic.register(self._traffic(0))
         self.driver.connect()
+        self.oneshot_calls = 0
+        if getattr(self, "oneshot_observers", False):
+            # application observers that unregister themselves from inside their first call (a "tell me once" callback), one on
+            # bus_traffic and one on the connection status: what observers do is not a bus outcome
+            def oneshot(registry):
+                box = {}
+
+                def cb(*a):
+                    self.oneshot_calls += 1
+                    if not box.get("done"):          # (already-scheduled calls may still arrive after the unregistration)
+                        box["done"] = True
+                        box["handle"].unregister()
+                box["handle"] = registry.register(cb)
+            oneshot(self.driver.bus_traffic)
+            oneshot(self.driver.connection_status_callback)
         self.gateway.observe = list(self.foreign)      # (opening the device resets the gateway model)
 
     def _traffic(self, k):
